@@ -632,8 +632,16 @@ def rule_dup(chk, w):
                              "parameter list (%s) without the duplicate test: a repeated parameter — e.g. the lead address "
                              "and an `address=` for the same payment — is recorded" % p_.rsplit("::", 1)[-1], t.span.loc())
             elif re.search(r"BTreeMap::<K, V, A>::insert$", p_):
+                # only the index of parameter lists (BTreeMap<usize, Vec<Param>>), not e.g. the map of built payments
+                mty = b.local_ty(t.args[0].place.local) if t.args and t.args[0].kind in ("copy", "move") else ""
+                if "Param" not in mty and "Param" not in defuse.show(du.origin(t.args[0])) and \
+                        not any("Param" in (b.local_ty(a.place.local) or "") for a in t.args[1:] if a.kind in ("copy", "move")):
+                    continue
                 n += 1
-                absent = any(o[0] == "disc" and re.match(r"^get(_mut)?\(", defuse.show(o[1])) and v == 0 for o, v, _tr in conds)
+                # the lookup answered None: arm 0, or the `else` of a switch that only names Some
+                absent = any(o[0] == "disc" and re.match(r"^get(_mut)?\(", defuse.show(o[1])) and
+                             (v == 0 or (v == "else" and [a_ for a_, _t2 in b.blocks[sw_].term.arms] == [1]))
+                             for (o, v, _tr), (sw_, _v2, _tb2) in zip(conds, G.edge_conditions(b, bb)))
                 first = bb not in cyc and bool(lookups) and not any(bb in b.reachable(lb) for lb in lookups) and \
                     all(lb in b.reachable(bb) for lb in lookups)
                 if absent or first:
@@ -858,14 +866,30 @@ def rule_pf(chk, w):
     if len(fb) == 1:
         b = fb[0].body
         du = defuse.DefUse(b)
-        for bi, blk in enumerate(b.blocks):
-            for si, s in enumerate(blk.stmts):
-                if s.kind == "=" and s.rv.kind == "bin" and s.rv.op == "Gt" and \
-                        re.search(r"Gt 512\)$", defuse.show(du.origin_local(s.place.local))):
-                    res = S.explore(b, bi, {}, inject={(bi, si): S.B(True)})
-                    cps = {bb for bb, _t in _calls(b, r"::copy_from_slice$")}
-                    g["G-memo-len"] = {rv for _b, rv in res.returns} <= {"variant:Err"} and \
-                        not (cps & res.blocks)
+        # every path to the copy took an edge on which `bytes.len() <= 512` held (however the test is written:
+        # `len > 512 => return Err`, `if len <= 512 { copy }`, `len < 513`), the slice it fills is memo[..bytes.len()]
+        # of the 512-byte array, and the source is `bytes` itself
+        import guards as G_
+        cps = _calls(b, r"::copy_from_slice$")
+        oks = []
+        for cb, ct in cps:
+            dst, src = du.origin(ct.args[0]), defuse.strip_refs(du.origin(ct.args[1]))
+            dtxt = defuse.show(dst)
+            bounded = False
+            for sw, v, _tb in G_.edge_conditions(b, cb):
+                tm = b.blocks[sw].term
+                tr = G_.truth(tm, v)
+                o = du.origin(tm.discr) if tm.discr is not None and tm.discr.kind in ("copy", "move") else None
+                if tr is None or o is None or o[0] != "bin":
+                    continue
+                op, x, y = o[1], o[2], o[3]
+                if not tr:
+                    op = {"Gt": "Le", "Ge": "Lt", "Lt": "Ge", "Le": "Gt"}.get(op)
+                if defuse.show(x) == "len(&*arg0)" and y[0] == "const" and \
+                        ((op == "Le" and y[1] <= 512) or (op == "Lt" and y[1] <= 513)):
+                    bounded = True
+            oks.append(bounded and src == ("arg", 0) and "RangeTo{len(&*arg0)}" in dtxt.replace("core::ops::RangeTo::", ""))
+        g["G-memo-len"] = bool(oks) and all(oks)
     tu = w.by_p.get(Z + "TransactionRequest::to_uri", [])
     g["G-len-1"] = False
     if len(tu) == 1:
@@ -895,6 +919,7 @@ def rule_pf(chk, w):
     chk.analysed.update({"functions_reachable": len(reached),
                          "class_B_sites_inventoried_not_armed": len([1 for _f, s, _k in sites if s["cls"] == "B"])})
     for f, s, key in sites:
+        key = panics.resolve_key(REVIEWED, key, s)
         if s["cls"] != "A":
             continue
         loc = s["span"].loc()
